@@ -58,6 +58,29 @@ struct Daemons {
 
 /// A daemon that returns an error has stopped running; the property's premise ("while a flush
 /// thread and at least one compaction thread are running") no longer holds.  Note it in the tag.
+/// Number of level-1 tables the level-0 compaction takes in: what level 0's key range overlaps,
+/// the range growing with every table taken in (as `compute_bounds` does).
+#[allow(clippy::type_complexity)]
+fn level1_intake(lv: &[Vec<(setsum::Setsum, Vec<u8>, Vec<u8>, u64, u64, u64)>]) -> usize {
+    let lo = lv[0].iter().map(|f| f.1.clone()).min();
+    let hi = lv[0].iter().map(|f| f.2.clone()).max();
+    let (Some(mut lo), Some(mut hi)) = (lo, hi) else { return 0 };
+    loop {
+        let mut n = 0;
+        let (mut lo2, mut hi2) = (lo.clone(), hi.clone());
+        for f in lv[1].iter().filter(|f| f.1 <= hi && lo <= f.2) {
+            n += 1;
+            lo2 = lo2.min(f.1.clone());
+            hi2 = hi2.max(f.2.clone());
+        }
+        if lo2 == lo && hi2 == hi {
+            return n;
+        }
+        lo = lo2;
+        hi = hi2;
+    }
+}
+
 fn note_daemon_exit(slot: &Slot, what: &str) {
     let mut r = slot.lock().unwrap();
     if !r.tag.contains("daemon-exited") {
@@ -1570,10 +1593,8 @@ pub fn kvs_liveness(seed: u64, worker: usize, slot: &Slot) {
             let note = |kvs: &Arc<KeyValueStore>| {
                 if let Some(mof) = mof {
                     let lv = kvs.verif_tree().verif_levels();
-                    let lo = lv[0].iter().map(|f| f.1.clone()).min();
-                    let hi = lv[0].iter().map(|f| f.2.clone()).max();
-                    if let (Some(lo), Some(hi)) = (lo, hi) {
-                        let need = lv[0].len().max(stall_files) + lv[1].iter().filter(|f| f.1 <= hi && lo <= f.2).count();
+                    if !lv[0].is_empty() {
+                        let need = lv[0].len().max(stall_files) + level1_intake(&lv);
                         if need >= mof {
                             let mut r = slot3.lock().unwrap();
                             if !r.tag.contains("max-open-files") {
@@ -1713,10 +1734,8 @@ pub fn tree_liveness(seed: u64, worker: usize, slot: &Slot) {
                     // the selector can never choose it, however many tables follow.
                     if let Some(mof) = mof {
                         let lv = t.verif_levels();
-                        let lo = lv[0].iter().map(|f| f.1.clone()).min();
-                        let hi = lv[0].iter().map(|f| f.2.clone()).max();
-                        if let (Some(lo), Some(hi)) = (lo, hi) {
-                            let need = lv[0].len() + lv[1].iter().filter(|f| f.1 <= hi && lo <= f.2).count();
+                        if !lv[0].is_empty() {
+                            let need = lv[0].len() + level1_intake(&lv);
                             if need >= mof {
                                 let mut r = slot3.lock().unwrap();
                                 if !r.tag.contains("max-open-files") {
